@@ -209,7 +209,25 @@ func runC17(c *Ctx) {
 			if !fl.Exported() {
 				continue
 			}
-			read := len(FieldReads([]*ssa.Function{psd}, fl)) > 0
+			// a read that only feeds len() (buffer pre-sizing) does not put the field into the signed bytes
+			read := false
+			for _, r := range FieldReads([]*ssa.Function{psd}, fl) {
+				v, isV := r.(ssa.Value)
+				if !isV || v.Referrers() == nil {
+					continue
+				}
+				for _, ref := range *v.Referrers() {
+					if cc, isCall := ref.(*ssa.Call); isCall {
+						if b, isB := cc.Call.Value.(*ssa.Builtin); isB && b.Name() == "len" {
+							continue
+						}
+					}
+					if _, isDbg := ref.(*ssa.DebugRef); isDbg {
+						continue
+					}
+					read = true
+				}
+			}
 			if excluded[fl.Name()] {
 				c.Check(!read, "C17.2-signature-coverage", FuncName(psd)+"|excludes "+fl.Name(), p.Pos(psd.Pos()), fl.Name()+" is (by design) outside the signed bytes")
 			} else {
